@@ -41,6 +41,8 @@ def helpers_stages(ctx):
     # the Sub helper: native SubFS or the fallback view must give the same file system (twin run against the parent)
     graph_stage(ctx, "helpers-sub", "MC_FSCore.tla", "FSCore.quick.cfg", "fscore", ["sub=.=mem", "sub=d=mem", "sub=d=openonly", "sub=d=oshp"],
                 ["--names", "a,b", "--depth", "3", "--attr", "sub:C08,err:-,state:-,wf:-,list:-"], workers=8)
+    # ... and must refuse the names a native SubFS refuses (NameGate.tla through the fallback view, incl. Sub of the view itself)
+    namegate_stages(ctx, adapters=["subview:d"], attr="state:C08,err:C08")
 
 
 def links_stage(ctx):
